@@ -304,7 +304,23 @@ def _records_report(ctx: Ctx) -> Report:
         from kio.records.readers import read_batch
         from kio.records.writers import write_batch
 
-        nb = c17.build(case)
+        if selector % 3 == 0 and len(case["records"]) >= 2:
+            # "unnumbered" records, as an application hands them to a producer: every offset 0
+            case = {**case, "records": [{**r, "offset": 0} for r in case["records"]]}
+        # the records exist BEFORE any batch does; placing them in batches (construction, replace, a second batch sharing
+        # them) must leave each of them exactly as it was
+        recs = c17.build_records(case)
+        before = [(_snapshot(r), hash(r), copy.deepcopy(r)) for r in recs]
+        nb = c17.build(case, recs)
+        dataclasses.replace(nb, records=recs[::-1])
+        c17.build({**case, "producer_id": 7}, recs)
+        for i, (r, (snap, h, dup)) in enumerate(zip(recs, before)):
+            rep.evaluations += 1
+            if _snapshot(r) != snap or hash(r) != h or r != dup:
+                rep.add_failure(Failure("component-changed-by-container", f"record {i} was {snap[0][:300]} before it was placed in a NewRecordBatch and is "
+                                        f"{r!r:.300} afterwards (hash {'changed' if hash(r) != h else 'same'})",
+                                        {"records_case": c17.case_to_json(case), "selector": selector}, 1))
+                break
         objs = [(nb, lambda: c17.build(case))]
         rec = nb.records[0]
         objs.append((rec, lambda: c17.build(case).records[0]))
